@@ -267,7 +267,12 @@ CLAIMED = {
        "holds the same train_inputs, train_targets, likelihood and prediction_strategy objects, and the result is a different object; FixedNoiseGaussianLikelihood.get_fantasy_likelihood "
        "(with / without learned additional noise, with / without a fantasy batch): the copy's fixed noise is [old FIXED noise; fantasy noise] (up to the "
        "min_fixed_noise rounding), the additional-noise module is copied once with its value, the source keeps its noise-model object and values, and a "
-       "missing noise keyword is rejected. Bounded "
+       "missing noise keyword is rejected; DefaultPredictionStrategy.get_fantasy_strategy (un-batched single-output case; symbolic n, m, root rank; "
+       "root_inv_decomposition().matmul, psd_safe_cholesky, cholesky_solve, cat_rows and the root decompositions as callee contracts): Q = Kinv U^T, the "
+       "factorised matrix is S - U Q with S the covariance of fantasy_likelihood(N(mu_f, K_ff), X_f), the small system's right-hand side is "
+       "y_f - mu_f - U alpha, the new mean cache is [alpha - Q b; b], the carried roots / covar_cache are those of K.cat_rows(U, S), and the new strategy "
+       "is built on the full data, the joint prior and the fantasy likelihood; plus the Lean 4 / Mathlib lemma lean/Bordered.lean (re-checked by lean on "
+       "every run, axioms audited) that these terms solve [K U^T; U S] x = [y; y_f], i.e. the carried solve equals the one recomputed from the full data. Bounded "
        "tier (not counted): fantasy predictions (mean, full covariance) and the carried caches (mean_cache, covar_cache, lik_train_train_covar "
        "and its roots; KISS-GP interpolation caches) against dense from-scratch conditioning on the concatenated data, bitwise 'source untouched' "
        "checks, for Gaussian / FixedNoise / multitask / derivative / KISS-GP / model-list families, 1-3 fantasy steps incl. batch-expanding ones, "
